@@ -131,3 +131,56 @@ class OSet:
 
     def __bool__(self):
         return bool(self._items)
+
+
+class ASet(OSet):
+    """a set whose iteration order is an explicit input: every traversal asks `chooser(n)` for the position (among the n
+    elements not yet visited) of the next element. With symbolic choices the solver ranges over every iteration order the
+    interpreter could pick (any PYTHONHASHSEED, any memory layout); with concrete choices it replays one of them."""
+    chooser = None
+
+    def __iter__(self):
+        rest = list(self._items)
+        out = []
+        while rest:
+            pick = type(self).chooser(len(rest)) if type(self).chooser and len(rest) > 1 else 0
+            out.append(rest.pop(pick))
+        return iter(out)
+
+    def union(self, *others):
+        new = type(self)(self._items)
+        for o in others:
+            new.update(o)
+        return new
+
+    def __sub__(self, other):
+        return type(self)(x for x in self._items if x not in other)
+
+    def __or__(self, other):
+        return self.union(other)
+
+    def discard(self, item):
+        self._items = [x for x in self._items if not (x is item or x == item)]
+
+    def __and__(self, other):
+        return type(self)(x for x in self._items if x in other)
+
+    __rand__ = __and__
+    intersection = __and__
+
+    def difference(self, other):
+        return self.__sub__(other)
+
+    def isdisjoint(self, other):
+        return not any(x in other for x in self._items)
+
+    def clear(self):
+        self._items = []
+
+    def __eq__(self, other):
+        try:
+            return len(self) == len(other) and all(x in other for x in self._items)
+        except TypeError:
+            return NotImplemented
+
+    __hash__ = None
